@@ -70,7 +70,8 @@ class KexDH:  # pragma: nocover
 
     def send_init(self, s: SSH_Socket, init_msg: int = Protocol.MSG_KEXDH_INIT) -> None:
         r = random.SystemRandom()
-        self.__x = r.randrange(2, self.__q)
+        # The exponent is capped at 512 bits: the exchange is never completed, and a full-size exponent lets a server that hands out an enormous modulus keep us computing for minutes or hours, whatever the timeout.
+        self.__x = r.randrange(2, min(self.__q, 1 << 512))
         self.__e = pow(self.__g, self.__x, self.__p)
         s.write_byte(init_msg)
         s.write_mpint2(self.__e)
@@ -404,6 +405,10 @@ class KexGroupExchange(KexDH):
             ptr += g_len
         except struct.error:
             raise KexDHException("Error while parsing modulus and generator during GEX init: %s" % str(traceback.format_exc())) from None
+
+        # A modulus far beyond anything in use (OpenSSH itself accepts at most 8192 bits) is refused: computing with it would take minutes to hours, whatever the timeout.
+        if p.bit_length() > 32768:
+            raise KexDHException('The modulus sent by the server is too large (%u bits).' % p.bit_length())
 
         # Now that we got the generator and modulus, perform the DH exchange
         # like usual.
